@@ -26,14 +26,19 @@ TRUSTED_BASE = ["Coq 8.16.1 kernel (coqc), vm_compute only for closed witnesses"
                 "ocaml/prelude.ml + ocaml/c28_driver.ml (parsing, schedule inputs taken from the observed file), harness/h_c28.cpp "
                 "(incl. the extraction of sequence / direction / text from XML lines and from text lines with further fields: the "
                 "model formats only these three; timestamps, thread codes, level names and location strings are not modelled), vlib"]
-ASSUMPTIONS = ["ff::uMPMC_Ptr_Queue behaves as an atomic FIFO (C30); try_push never fails (no allocation failure)",
+ASSUMPTIONS = ["std::ofstream buffering is modelled as: a line inserted into the stream reaches the file when the stream is flushed, by the "
+               "endl that follows every line (unbuffered path, no nolf/buffer flag) or on destruction; the theorems about written lines "
+               "speak about flushed content, the harness reads the file before the logger is destroyed",
+               "ff::uMPMC_Ptr_Queue behaves as an atomic FIFO (C30); try_push never fails (no allocation failure)",
                "sequentially consistent interleaving of the modelled atomic actions; _stopping, _sequence and the stream are "
                "only touched as modelled (set_levels/set_flags are not called concurrently)",
                "all producers have finished before stop() is called (the property speaks of lines submitted before the stop)"]
 RULE = ("FileLogger in the basic layout (sequence [direction] text) for most cases, plus a few dozen cases each for XmlFileLogger, "
         "PipeLogger (|cat > file) and FileLogger with further fields (mstart, sstart, thread, timestamp, minitimestamp, level, location; "
         "send() with and without a file/line string): there the harness extracts sequence, direction and text from every written line "
-        "(a line from which they cannot be extracted fails the oracle). 1..8 producer threads x 0..200 submit calls with levels Debug..Fatal against level masks 0..31 (none, all, single, random), "
+        "(a line from which they cannot be extracted fails the oracle); a class of texts that end in or contain line ends (\\n, \\r\\n, "
+        "only \\n; as the last line before stop() and mid-run). The file is read when stop() has returned and BEFORE the logger is "
+        "destroyed, and counted again after the destruction: nothing may appear only then. 1..8 producer threads x 0..200 submit calls with levels Debug..Fatal against level masks 0..31 (none, all, single, random), "
         "three quarters of the cases with an explicit val argument per call drawn from {0, 1, other} (all equal, alternating, "
         "per producer, random) on a logger with or without the direction flag (sequence numbering: one series / two series), "
         "texts carrying producer and call number; stop() (a) by the producer finishing last, (b) 0..2000 us after the producers "
@@ -181,6 +186,32 @@ def gen_one(rng, cls, big=True):
             mask = 31
         progs = [rand_prog(rng, rng.randrange(1, 25), mask) for _ in range(n)]
         return mk_kind(rng, kind, rng.choice("cab"), mask, rng.choice([0, 100, 500]), progs, cls)
+    if cls == "newline":
+        # texts that bring their own line ends: trailing "\n", embedded "\n", "\r\n", only "\n"; as the LAST line before stop()
+        # (the endl after the text is also the flush) and mid-run; basic layout of FileLogger
+        n = rng.choice([1, 1, 2, 3])
+        mask = 31 if rng.random() < 0.7 else mask
+        progs = [rand_prog(rng, rng.randrange(1, 12), mask) for _ in range(n)]
+        forms = "nerN" if n == 1 else "ner"        # a text that is only "\n" does not tell its producer
+        txts = []
+        for p in progs:
+            ln = 0 if p == "-" else len(p)
+            t = ["0"] * ln
+            m = rng.randrange(4)
+            for k in range(ln):
+                if m == 0 and k == ln - 1:
+                    t[k] = rng.choice(forms)                 # only the last call
+                elif m == 1 and rng.random() < 0.3:
+                    t[k] = rng.choice(forms)                 # some, anywhere
+                elif m == 2:
+                    t[k] = rng.choice(forms)                 # all
+                elif m == 3 and (k == ln - 1 or rng.random() < 0.2):
+                    t[k] = rng.choice(forms)
+            txts.append("".join(t) or "-")
+        return Case("%s %d %d %s %d %s F - %s %s" % (rng.choice("caab"), mask, rng.choice([0, 100, 1000]), ",".join(progs),
+                                                     rng.randrange(2), ",".join(rand_vals(rng, progs)),
+                                                     ",".join("0" * (0 if p == "-" else len(p)) or "-" for p in progs),
+                                                     ",".join(txts)), cls)
     if cls == "empty":
         n = rng.randrange(1, 4)
         progs = [rand_prog(rng, rng.randrange(2, 12), mask, 0.15) for _ in range(n)]
@@ -190,7 +221,7 @@ def gen_one(rng, cls, big=True):
     raise ValueError(cls)
 
 
-CLASSES = ["single-c", "multi-c", "stop-a", "stop-b", "xml", "multi-c", "layout", "levels", "stop-b", "empty", "xml", "pipe"]
+CLASSES = ["single-c", "multi-c", "stop-a", "stop-b", "xml", "multi-c", "layout", "levels", "newline", "empty", "xml", "pipe", "stop-b", "newline"]
 
 
 def gen_cases(rng, tier):
@@ -200,6 +231,8 @@ def gen_cases(rng, tier):
           Case("c 2 0 1111 0 0101", "fixed"), Case("a 31 0 11 1 -", "fixed"),
           Case("c 31 0 1111,222 1 0120,101 X tL 0101,111", "xml"), Case("c 31 0 11 0 00 X L 00", "xml"),
           Case("c 31 0 112 1 010 F mstTMlL 010", "layout"), Case("c 31 0 111,22 1 010,11 P - -", "pipe"),
+          Case("c 31 0 1111 0 0000 F - 0000 0ner", "newline"), Case("a 31 0 11 1 01 F - 00 Nn", "newline"),
+          Case("c 31 0 1 0 0 F - 0 n", "newline"), Case("b 31 500 111,22 0 000,00 F - 000,00 00n,en", "newline"),
           Case("c 2 0 1b1", "empty-c"), Case("c 31 0 0a,111", "empty-c"), Case("c 1 0 1b1,22", "fixed")]
     n = 2500 if thorough else 300
     for i in range(n):
